@@ -65,22 +65,23 @@ Definition remove_handle (st : Store) (mi sid h : Z) : Store :=
 Definition YES : text := [89; 101; 115].
 Fixpoint strip_nl (s : text) : text := match s with 10 :: t => strip_nl t | _ => s end.
 Definition strip_newlines (s : text) : text := rev (strip_nl (rev (strip_nl s))).
-Definition key_delete (st : Store) (label : text) (force : bool) (answer : text) : res (Store * bool) :=
-  bind (get_p11_key st label true None) (fun e =>
-  match e with
-  | None => OK (st, false)
-  | Some k =>
-      if negb force && negb (text_eqb (strip_newlines answer) YES) then OK (st, true) else
+(* the store is returned in every case: an exception of the second look-up happens after the public object is already destroyed *)
+Definition key_delete (st : Store) (label : text) (force : bool) (answer : text) : Store * res bool :=
+  match get_p11_key st label true None with
+  | Raise c => (st, Raise c)
+  | OK None => (st, OK false)
+  | OK (Some k) =>
+      if negb force && negb (text_eqb (strip_newlines answer) YES) then (st, OK true) else
       let st1 := match pk_pub k with
                  | Some _ => remove_handle st (pk_module k) (pk_slot k) (pk_handle k)
                  | None => st
                  end in
-      bind (get_p11_key st1 label false None) (fun p =>
-      match p with
-      | Some pk => OK (remove_handle st1 (pk_module pk) (pk_slot pk) (pk_handle pk), true)
-      | None => OK (st1, false)
-      end)
-  end).
+      match get_p11_key st1 label false None with
+      | Raise c => (st1, Raise c)
+      | OK (Some pk) => (remove_handle st1 (pk_module pk) (pk_slot pk) (pk_handle pk), OK true)
+      | OK None => (st1, OK false)
+      end
+  end.
 
 (* all objects of the store, with their position (module index, slot id) *)
 Definition slot_objs (i : Z) (s : Slot) : list (Z * Z * Obj) := map (fun o => (i, sl_id s, o)) (sl_objs s).
